@@ -16,18 +16,18 @@ Proof.
   rewrite Ha1, Hb1. cbn [orb flushed append]. rewrite <- app_assoc. reflexivity.
 Qed.
 
-(* checksum:  test -f p && sha1sum p | awk '{print $1}' *)
+(* checksum:  test -f p && sha1sum < p | awk '{print $1}' *)
 Theorem checksum_tokens p :
   sh_lex (line OChecksum p) =
-  Some [W "test"; W "-f"; W p; Op "&&"; W "sha1sum"; W p; Op "|"; W "awk"; W "{print $1}"].
+  Some [W "test"; W "-f"; W p; Op "&&"; W "sha1sum"; Op "<"; W p; Op "|"; W "awk"; W "{print $1}"].
 Proof.
   unfold line, sh_lex. cbn [cmd_of_op join].
-  change ("test" ++ " " ++ "-f" ++ " " ++ quote p ++ " " ++ "&&" ++ " " ++ "sha1sum" ++ " " ++ quote p ++ " " ++ "|" ++ " "
+  change ("test" ++ " " ++ "-f" ++ " " ++ quote p ++ " " ++ "&&" ++ " " ++ "sha1sum" ++ " " ++ "<" ++ " " ++ quote p ++ " " ++ "|" ++ " "
           ++ "awk" ++ " " ++ "'{print $1}'")
-    with ("test" ++ " " ++ "-f" ++ " " ++ quote p ++ " && " ++ "sha1sum" ++ " " ++ quote p ++ " | awk '{print $1}'").
+    with ("test" ++ " " ++ "-f" ++ " " ++ quote p ++ " && " ++ "sha1sum" ++ " < " ++ quote p ++ " | awk '{print $1}'").
   rewrite lex_lit_words2 by reflexivity.
   rewrite lex_quote by reflexivity. rewrite lex_lit_andand. cbn [flushed app].
-  rewrite lex_plain by reflexivity. rewrite lex_lit_blank. cbn [orb nonempty flushed append app].
+  rewrite lex_plain by reflexivity. rewrite lex_lit_in. cbn [orb nonempty flushed app].
   rewrite lex_quote by reflexivity. reflexivity.
 Qed.
 
@@ -55,10 +55,10 @@ Proof.
   rewrite lex_lit_words2 by reflexivity. rewrite lex_quote by reflexivity. reflexivity.
 Qed.
 
-(* glob:  set -- p/pattern ; test -e "$1" && printf '%s\n' "$@" ; :   — the directory is the verbatim
+(* glob:  set -- p/pattern ; test -e "$1" && printf '%s\0' "$@" ; :   — the directory is the verbatim
    beginning of the word whose remainder is the (deliberately interpreted) pattern *)
 Definition glob_tail (pat : string) : string :=
-  "/" ++ pat ++ " ; test -e ""$1"" && printf '%s\n' ""$@"" ; :".
+  "/" ++ pat ++ " ; test -e ""$1"" && printf '%s\0' ""$@"" ; :".
 Theorem glob_prefix p pat :
   line (OGlob pat) p = "set -- " ++ quote p ++ glob_tail pat /\
   forall acc, lex Norm false EmptyString acc (line (OGlob pat) p)
